@@ -18,6 +18,11 @@ func init() {
 		&slip.FuncDoc{
 			Name: "char-not-equal",
 			Args: []*slip.DocArg{
+				{
+					Name: "character",
+					Type: "character",
+					Text: "The first character to compare.",
+				},
 				{Name: "&rest"},
 				{
 					Name: "characters",
